@@ -1754,6 +1754,107 @@ is the sum of the components' element masses (`comp_massSel_element` then gives 
 theorem block_massSel_is_sum_of_components (ph : Phys) (elem : ElemTable) (b : Block) (spec : List Nuc) :
     blockMassSel ph elem b spec = sumBy (fun c => c.massSel ph elem spec) b.kids := rfl
 
+/-! ### the empty selection selects nothing; a selection and its complement make up the total -/
+
+theorem resolveSpec_nil (elem : ElemTable) (here : List Nuc) : resolveSpec elem here [] = [] := rfl
+
+/-- **`getMass([])` is 0 at every level** (`None` selects everything, the empty list nothing) -/
+theorem massSel_nil (ph : Phys) (elem : ElemTable) :
+    (∀ c : Comp, c.massSel ph elem [] = 0) ∧ (∀ b : Block, blockMassSel ph elem b [] = 0) ∧
+    (∀ a : Assem, assemMassSel ph elem a [] = 0) ∧ (∀ r : Core, coreMassSel ph elem r [] = 0) := by
+  have hc : ∀ c : Comp, c.massSel ph elem [] = 0 := by
+    intro c; unfold Comp.massSel; rw [resolveSpec_nil]; simp [sumBy]
+  have lift : ∀ {β : Type} (f : β → List Nuc → Rat), (∀ x, f x [] = 0) → ∀ p : Node β, Node.massSel f p [] = 0 := by
+    intro β f hf p
+    unfold Node.massSel
+    rw [← sumBy_zero p.kids]; apply sumBy_congr; intro x _; exact hf x
+  have hb := lift (Comp.massSel ph elem) hc
+  have ha := lift (blockMassSel ph elem) hb
+  exact ⟨hc, hb, ha, lift (assemMassSel ph elem) ha⟩
+
+/-- an element symbol none of whose isotopes is present (and which is not itself present) selects nothing -/
+theorem comp_massSel_absent_element (ph : Phys) (elem : ElemTable) (c : Comp) (e : Nuc) (isos : List Nuc)
+    (habs : c.nd.keys.contains e = false) (he : elem e = some isos)
+    (hiso : ∀ i ∈ isos, c.nd.keys.contains i = false) : c.massSel ph elem [e] = 0 := by
+  rw [comp_massSel_eq_sum]
+  have h1 : resolveSpec elem c.nd.keys [e] = dedup isos := by
+    unfold resolveSpec
+    simp only [List.flatMap_cons, List.flatMap_nil, List.append_nil]
+    unfold resolveOne; rw [habs, he]; rfl
+  rw [h1, ← sumBy_zero (dedup isos)]
+  apply sumBy_congr; intro n hn
+  have hn' : n ∈ isos := (mem_dedup isos n).mp hn
+  simp only [Comp.mass, get_absent c.nd n (hiso n hn')]; ring
+
+private theorem dedup_nodup (l : List Nuc) (h : l.Nodup) : dedup l = l := by
+  induction l with
+  | nil => rfl
+  | cons a l ih =>
+    have hn := List.nodup_cons.mp h
+    simp only [dedup, ih hn.2]
+    have : l.contains a = false := by simpa using hn.1
+    rw [this]; rfl
+
+/-- list lemma: a sub-list of the nuclide list and its complement split any per-nuclide sum -/
+private theorem sum_complement (m : Nuc → Rat) (N l : List Nuc) (hN : N.Nodup) (hl : l.Nodup)
+    (hsub : ∀ n ∈ l, n ∈ N) :
+    sumBy m l + sumBy m (N.filter (fun k => !l.contains k)) = sumBy m N := by
+  have h1 : sumBy m l = sumBy (fun k => if l.contains k then m k else 0) N := by
+    have hd : NodupKeys (l.map (fun n => (n, m n))) := by
+      unfold NodupKeys; rw [keys_mapPair]; exact hl
+    have := sumBy_reindex N (l.map (fun n => (n, m n))) hN hd (by
+      intro q hq
+      obtain ⟨n, hn, rfl⟩ := List.mem_map.mp hq
+      exact hsub n hn)
+    rw [sumBy_map] at this
+    simp only [] at this
+    rw [← this]
+    apply sumBy_congr; intro k _
+    rw [has_eq_contains, keys_mapPair]
+    by_cases hk : k ∈ l
+    · simp [hk, get_mapPair l m k hk]
+    · simp [hk]
+  rw [h1, sumBy_filter, ← sumBy_add]
+  apply sumBy_congr; intro k _
+  by_cases hk : k ∈ l <;> simp [hk]
+
+/-- **a selection and its complement sum to the total mass** — component, block, assembly and core level
+(plain nuclide names; `l` a duplicate-free part of the nuclides present) -/
+theorem massSel_complement (ph : Phys) (elem : ElemTable) (l : List Nuc) (hl : l.Nodup) :
+    (∀ c : Comp, (∀ n ∈ c.nd.keys, elem n = none) → c.nd.keys.Nodup → (∀ n ∈ l, n ∈ c.nd.keys) →
+      c.massSel ph elem l + c.massSel ph elem (c.nd.keys.filter (fun k => !l.contains k))
+        = massTotal (compOps ph) c) ∧
+    (∀ b : Block, (∀ n ∈ (blockOps ph).nucs b, elem n = none) → (∀ n ∈ l, n ∈ (blockOps ph).nucs b) →
+      blockMassSel ph elem b l + blockMassSel ph elem b (((blockOps ph).nucs b).filter (fun k => !l.contains k))
+        = massTotal (blockOps ph) b) ∧
+    (∀ a : Assem, (∀ n ∈ (assemOps ph).nucs a, elem n = none) → (∀ n ∈ l, n ∈ (assemOps ph).nucs a) →
+      assemMassSel ph elem a l + assemMassSel ph elem a (((assemOps ph).nucs a).filter (fun k => !l.contains k))
+        = massTotal (assemOps ph) a) ∧
+    (∀ r : Core, (∀ n ∈ (coreOps ph).nucs r, elem n = none) → (∀ n ∈ l, n ∈ (coreOps ph).nucs r) →
+      coreMassSel ph elem r l + coreMassSel ph elem r (((coreOps ph).nucs r).filter (fun k => !l.contains k))
+        = massTotal (coreOps ph) r) := by
+  have key : ∀ (N : List Nuc) (m : Nuc → Rat) (sel : List Nuc → Rat), N.Nodup → (∀ n ∈ N, elem n = none) →
+      (∀ n ∈ l, n ∈ N) → (∀ spec, (∀ s ∈ spec, elem s = none) → sel spec = sumBy m (dedup spec)) →
+      sel l + sel (N.filter (fun k => !l.contains k)) = sumBy m N := by
+    intro N m sel hN hplain hsub hsel
+    have hf : (N.filter (fun k => !l.contains k)).Nodup := hN.filter _
+    rw [hsel l (fun s hs => hplain s (hsub s hs)),
+      hsel _ (fun s hs => hplain s (List.mem_filter.mp hs).1), dedup_nodup l hl, dedup_nodup _ hf]
+    exact sum_complement m N l hN hl hsub
+  refine ⟨?_, ?_, ?_, ?_⟩
+  · intro c hplain hnod hsub
+    exact key c.nd.keys (fun n => (compOps ph).mass c n) (fun spec => c.massSel ph elem spec) hnod hplain hsub
+      (fun spec hs => (mass_of_selection_additive ph elem spec hs).1 c)
+  · intro b hplain hsub
+    exact key _ (fun n => (blockOps ph).mass b n) (fun spec => blockMassSel ph elem b spec) (nodeNucs_nodup _ b) hplain hsub
+      (fun spec hs => (mass_of_selection_additive ph elem spec hs).2.1 b)
+  · intro a hplain hsub
+    exact key _ (fun n => (assemOps ph).mass a n) (fun spec => assemMassSel ph elem a spec) (nodeNucs_nodup _ a) hplain hsub
+      (fun spec hs => (mass_of_selection_additive ph elem spec hs).2.2.1 a)
+  · intro r hplain hsub
+    exact key _ (fun n => (coreOps ph).mass r n) (fun spec => coreMassSel ph elem r spec) (nodeNucs_nodup _ r) hplain hsub
+      (fun spec hs => (mass_of_selection_additive ph elem spec hs).2.2.2 r)
+
 /-! ### one statement for all four levels: atoms counted at core level are the components' atoms -/
 
 def BlockOK (ph : Phys) (b : Block) : Prop :=
